@@ -15,3 +15,13 @@ chk("C04",
     "The real TimerWheel is driven with explicit times (start times 0..2^50, per-second / irregular / longer-than-rotation advances, schedule / re-schedule in both directions incl. into the past / remove, deadlines adjacent to every level's slot boundaries and wrap-arounds) against a deadline model: never early, gone after the first advance >= deadline + one finest tick, only the newest deadline counts, slot lists well-formed. The same bounds are checked at cache level from EXPIRED notifications under virtual time with harness-run ticks, including a TTL update whose event is delayed past a tick (hook H1). Sampled; thorough adds per-second stepping over 7 virtual days.",
     "Lateness is measured against 'first advance at T >= deadline + 2^30 ns'; virtual time is produced by shifting the clock origin while no client call is in flight.",
     "deadline-model monitor over the live timer wheel (explicit time) + notification log under virtual time")
+
+chk("C02",
+    "Quiescent-state invariant walker (resident cost <= MaxSize = policy total = EstimatedSize, map/policy bijection, per-entry cost, flags, wheel membership) over white-box snapshots taken after Wait, driven by (a) concurrent stress with delays at hook H1 and virtual-time jumps, (b) a phase scheduler that parks every scripted op after its map phase and releases the event sends in chosen orders with tick / time-jump / read-burst between (thorough: all 4-op scripts over a 5-op alphabet x all 24 release orders x 3 placements), (c) the expiry path parked at its deadline re-check (hook H2) while the TTL is extended, on both the wheel and the insert path, (d) stalled maintenance with up to 100 writers parked on the full queue for the in-flight bound.",
+    "Entry pool off. Snapshots are taken under the policy lock and all shard read locks; the scheduler controls arrival order, not the scheduling inside one event's processing.",
+    "invariant walker at quiescent points + hook-driven phase scheduler")
+
+chk("C05",
+    "Ledger over the removal-listener log with unique values: owner-mode concurrent rounds (each key written by one goroutine, pool on/off, TTLs under virtual time, MaxSize 1..1000, 2..32 clients, H1 delays) decide exactly-once / true-reason / not-resident / never-phantom per value; deterministic delete-vs-eviction overlaps and the C02 phase-scheduler scripts are replayed with an exact script ledger.",
+    "Owner mode fixes the per-key write order to program order; the shared pipeline stays fully concurrent. A value still resident at the end owes no notification.",
+    "ledger / conservation checker over the recorded notification log")
